@@ -150,10 +150,14 @@ func targetsFromGroup(tg *targetgroup.Group, cfg *config.ScrapeConfig) ([]*SDTar
 		if lbls != nil || origLabels != nil {
 			tar := scrape.NewTarget(lbls, origLabels, cfg.Params)
 			hash := targetHash(lbls, tar.URL().String())
-			if exists[hash] {
-				continue
+			// members dropped by relabeling have no labels and all share one hash: they are kept
+			// (the dropped set lists every one of them), only active duplicates collapse
+			if lbls != nil {
+				if exists[hash] {
+					continue
+				}
+				exists[hash] = true
 			}
-			exists[hash] = true
 			targets = append(targets, &SDTargets{
 				Job:        cfg.JobName,
 				PromTarget: tar,
